@@ -273,6 +273,52 @@ pub fn observe_rdata(msg_octets: &[u8], _may_compress: bool, strict_opts: bool) 
         }
     }
 
+    // the signature-less RRSIG used for signing has its own (canonical)
+    // composition: it must be the RRSIG's up to and including the signer
+    if let AllRecordData::Rrsig(rr) = data {
+        let proto = domain::rdata::dnssec::ProtoRrsig::new(
+            rr.type_covered(),
+            rr.algorithm(),
+            rr.labels(),
+            rr.original_ttl(),
+            rr.expiration(),
+            rr.inception(),
+            rr.key_tag(),
+            rr.signer_name().clone(),
+        );
+        let k = wire.len() - rr.signature().len();
+        let (mut p, mut c) = (Vec::new(), Vec::new());
+        proto.compose(&mut p).unwrap();
+        proto.compose_canonical(&mut c).unwrap();
+        if p != wire[..k] {
+            issues.push("ProtoRrsig::compose differs from the RRSIG RDATA before the signature".into());
+        }
+        if c != canon[..k] {
+            issues.push("ProtoRrsig::compose_canonical differs from the canonical RRSIG RDATA before the signature".into());
+        }
+    }
+
+    // conversion into owned octets / flat names keeps the value
+    {
+        use domain::base::name::{FlattenInto, Name};
+        type OwnedData = AllRecordData<Vec<u8>, Name<Vec<u8>>>;
+        let owned: Result<OwnedData, _> = data.clone().try_flatten_into();
+        match owned {
+            Ok(o) => {
+                if compose_plain(&o) != wire || compose_canon(&o) != canon {
+                    issues.push("flattened value composes differently".into());
+                }
+                if o.rdlen(false) != data.rdlen(false) || o.rtype() != rtype {
+                    issues.push("flattened value: rdlen / rtype differ".into());
+                }
+                if o != *data {
+                    issues.push(ISSUE_EQ.to_string());
+                }
+            }
+            Err(_) => issues.push("value does not flatten".into()),
+        }
+    }
+
     // EDNS options: every option the library parses must re-compose to its
     // own octets; well-formed options of the kinds in OptLayout must parse
     if let AllRecordData::Opt(opt) = data {
@@ -503,6 +549,130 @@ pub fn observe_bitmap(adds: &[u16], probe: &[u16]) -> Value {
     json!({"bitmap": octets, "contains": contains, "rd": observe_rdata(&msg, false, false)})
 }
 
+/// Drives the SVCB parameter builder with pushes of opaque values in the
+/// given order (directly and through SvcParams::from_values), then builds
+/// an SVCB record from the result: value -> compose -> parse.
+pub fn observe_svcparams(pushes: &[(u16, Vec<u8>)]) -> Value {
+    use domain::base::name::Name;
+    use domain::base::iana::SvcParamKey;
+    use domain::rdata::svcb::{SvcParams, SvcParamsBuilder, UnknownSvcParam};
+    let mut issues: Vec<String> = vec![];
+    let mut b = SvcParamsBuilder::<Vec<u8>>::empty();
+    for (k, v) in pushes {
+        let val = UnknownSvcParam::new(SvcParamKey::from_int(*k), v.clone()).unwrap();
+        if b.push(&val).is_err() {
+            issues.push(format!("push of key {k} refused"));
+        }
+    }
+    if let Some((k, v)) = pushes.first() {
+        // a key can be present only once
+        let val = UnknownSvcParam::new(SvcParamKey::from_int(*k), v.clone()).unwrap();
+        if b.push(&val).is_ok() {
+            issues.push("second push of the same key accepted".into());
+        }
+    }
+    let params: SvcParams<Vec<u8>> = match b.freeze() {
+        Ok(p) => p,
+        Err(_) => return json!({"freeze": "err"}),
+    };
+    let octets = params.as_slice().to_vec();
+    let again: Result<SvcParams<Vec<u8>>, _> = SvcParams::from_values(|b| {
+        for (k, v) in pushes {
+            b.push(&UnknownSvcParam::new(SvcParamKey::from_int(*k), v.clone()).unwrap())?;
+        }
+        Ok(())
+    });
+    match again {
+        Ok(p2) => {
+            if p2.as_slice() != &octets[..] {
+                issues.push("SvcParams::from_values gives different octets".into());
+            }
+        }
+        Err(_) => issues.push("SvcParams::from_values failed".into()),
+    }
+    let svcb = domain::rdata::Svcb::new(1, Name::from_octets(vec![1u8, b'a', 0]).unwrap(), params).unwrap();
+    let mut rd = Vec::new();
+    svcb.compose_rdata(&mut rd).unwrap();
+    let msg = one_record_msg(&[1, b'x', 2, b'Y', b'z', 0], 64, &rd);
+    json!({"params": octets, "issues": issues, "rd": observe_rdata(&msg, false, false)})
+}
+
+/// Drives the TXT builder with a sequence of operations; the content of the
+/// i-th operation (1-based) with n octets is (i * 16 + j) % 256, j = 1..n.
+pub fn observe_txt(ops: &[(String, usize)]) -> Value {
+    use domain::base::charstr::CharStr;
+    use domain::rdata::rfc1035::TxtBuilder;
+    use domain::rdata::Txt;
+    let mut issues: Vec<String> = vec![];
+    let mut b = TxtBuilder::<Vec<u8>>::new();
+    for (i, (op, n)) in ops.iter().enumerate() {
+        let data: Vec<u8> = (1..=*n).map(|j| (((i + 1) * 16 + j) % 256) as u8).collect();
+        match op.as_str() {
+            "slice" => {
+                if b.append_slice(&data).is_err() {
+                    issues.push("append_slice refused".into());
+                }
+            }
+            "charstr" => {
+                let cs = CharStr::from_octets(data).unwrap();
+                if b.append_charstr(&cs).is_err() {
+                    issues.push("append_charstr refused".into());
+                }
+            }
+            _ => b.close_charstr(),
+        }
+    }
+    let txt = match b.finish() {
+        Ok(t) => t,
+        Err(_) => return json!({"finish": "err"}),
+    };
+    let mut rd = Vec::new();
+    txt.compose_rdata(&mut rd).unwrap();
+    if ops.len() == 1 && ops[0].0 == "slice" {
+        // the one-call constructor must agree with the builder
+        let data: Vec<u8> = (1..=ops[0].1).map(|j| ((16 + j) % 256) as u8).collect();
+        match Txt::<Vec<u8>>::build_from_slice(&data) {
+            Ok(t2) => {
+                let mut rd2 = Vec::new();
+                t2.compose_rdata(&mut rd2).unwrap();
+                if rd2 != rd {
+                    issues.push("Txt::build_from_slice differs from the builder".into());
+                }
+            }
+            Err(_) => issues.push("Txt::build_from_slice failed".into()),
+        }
+    }
+    let msg = one_record_msg(&[1, b'x', 2, b'Y', b'z', 0], 16, &rd);
+    json!({"txt": rd, "issues": issues, "rd": observe_rdata(&msg, false, false)})
+}
+
+/// The ALPN value builder and the value pushed into SVCB parameters.
+pub fn observe_alpn(ids: &[Vec<u8>]) -> Value {
+    use domain::rdata::svcb::value::AlpnBuilder;
+    use domain::rdata::svcb::SvcParamsBuilder;
+    let mut issues: Vec<String> = vec![];
+    let mut b = AlpnBuilder::<Vec<u8>>::empty();
+    for id in ids {
+        if b.push(id).is_err() {
+            issues.push("push refused".into());
+        }
+    }
+    if b.push(b"").is_ok() {
+        issues.push("empty protocol id accepted".into());
+    }
+    let alpn = b.freeze();
+    let value: Vec<u8> = alpn.as_slice().to_vec();
+    let mut pb = SvcParamsBuilder::<Vec<u8>>::empty();
+    if pb.push(&alpn).is_err() {
+        issues.push("push of the alpn value refused".into());
+    }
+    let params = match pb.freeze::<Vec<u8>>() {
+        Ok(p) => p.as_slice().to_vec(),
+        Err(_) => vec![],
+    };
+    json!({"value": value, "params": params, "issues": issues})
+}
+
 pub fn rtype_of(v: &Value) -> Rtype {
     Rtype::from_int(v.as_u64().unwrap_or(0) as u16)
 }
@@ -657,7 +827,7 @@ pub mod order {
 
     /// message-like buffers holding the name uncompressed and compressed at
     /// two different split points / offsets: (buffer, start position)
-    pub fn name_buffers(w: &[u8]) -> Vec<(Vec<u8>, usize)> {
+    pub fn name_buffers(w: &[u8]) -> Vec<(Vec<u8>, usize, usize)> {
         let offs = label_offsets(w);
         let nl = offs.len() - 1; // number of non-root labels
         let ptr = |b: &mut Vec<u8>, target: usize| {
@@ -668,7 +838,7 @@ pub mod order {
         // 0: flat
         let mut b0 = vec![0u8; 12];
         b0.extend_from_slice(w);
-        out.push((b0, 12));
+        out.push((b0, 12, 0));
         // labels + pointer, at different split points / offsets
         for (pad, k) in [(0usize, 1usize.min(nl)), (5, nl), (300, (nl + 1) / 2)] {
             let cut = offs[k];
@@ -678,7 +848,7 @@ pub mod order {
             let start = b.len();
             b.extend_from_slice(&w[..cut]);
             ptr(&mut b, target);
-            out.push((b, start));
+            out.push((b, start, 0));
         }
         // pointer-only chains of 1, 2 and 3 hops to the flat name
         {
@@ -688,7 +858,7 @@ pub mod order {
             for _ in 0..3 {
                 let start = b.len();
                 ptr(&mut b, target);
-                out.push((b.clone(), start));
+                out.push((b.clone(), start, 0));
                 target = start;
             }
         }
@@ -703,10 +873,10 @@ pub mod order {
             ptr(&mut b, 12); // first labels + pointer to the suffix
             let t2 = b.len();
             ptr(&mut b, t1);
-            out.push((b.clone(), t2));
+            out.push((b.clone(), t2, 0));
             let t3 = b.len();
             ptr(&mut b, t2);
-            out.push((b, t3));
+            out.push((b, t3, 0));
         }
         // labels + pointer -> labels + pointer -> flat suffix
         if nl >= 2 {
@@ -719,20 +889,91 @@ pub mod order {
             let t2 = b.len();
             b.extend_from_slice(&w[..c1]);
             ptr(&mut b, t1);
-            out.push((b, t2));
+            out.push((b, t2, 0));
+        }
+        // longer names (two more labels in front) from which the name is
+        // *derived* by stripping labels: the stripped labels are reached
+        // through compression pointers in different ways
+        if w.len() + 4 <= 255 {
+            // p + ptr -> q + ptr -> flat name
+            let mut b = vec![0u8; 12];
+            b.extend_from_slice(w);
+            let t1 = b.len();
+            b.extend_from_slice(&[1, b'q']);
+            ptr(&mut b, 12);
+            out.push((b.clone(), t1, 1));
+            let t2 = b.len();
+            b.extend_from_slice(&[1, b'p']);
+            ptr(&mut b, t1);
+            out.push((b, t2, 2));
+            // p + ptr -> q + ptr -> first labels + ptr -> suffix
+            let cut = offs[1usize.min(nl)];
+            let mut b = vec![0u8; 12];
+            b.extend_from_slice(&w[cut..]);
+            let t0 = b.len();
+            b.extend_from_slice(&w[..cut]);
+            ptr(&mut b, 12);
+            let t1 = b.len();
+            b.extend_from_slice(&[1, b'q']);
+            ptr(&mut b, t0);
+            let t2 = b.len();
+            b.extend_from_slice(&[1, b'p']);
+            ptr(&mut b, t1);
+            out.push((b, t2, 2));
+            // p + ptr -> ptr -> q + ptr -> flat name
+            let mut b = vec![0u8; 12];
+            b.extend_from_slice(w);
+            let t1 = b.len();
+            b.extend_from_slice(&[1, b'q']);
+            ptr(&mut b, 12);
+            let t1b = b.len();
+            ptr(&mut b, t1);
+            let t2 = b.len();
+            b.extend_from_slice(&[1, b'p']);
+            ptr(&mut b, t1b);
+            out.push((b, t2, 2));
+            // uncompressed
+            let mut b = vec![0u8; 12];
+            b.extend_from_slice(&[1, b'p', 1, b'q']);
+            b.extend_from_slice(w);
+            out.push((b, 12, 2));
         }
         out
     }
 
-    pub fn name_reps<'a>(w: &[u8], bufs: &'a [(Vec<u8>, usize)]) -> Vec<(String, NRep<'a>)> {
+    pub fn name_reps<'a>(
+        w: &[u8],
+        bufs: &'a [(Vec<u8>, usize, usize)],
+        with_suffix_iter: bool,
+    ) -> Vec<(String, NRep<'a>)> {
         let mut out = vec![];
         out.push(("Name<Vec>".to_string(), NRep::V(Name::from_octets(w.to_vec()).unwrap())));
         out.push(("Name<Bytes>".to_string(), NRep::B(Name::from_octets(Bytes::copy_from_slice(w)).unwrap())));
-        for (i, (buf, start)) in bufs.iter().enumerate() {
+        for (i, (buf, start, strip)) in bufs.iter().enumerate() {
             let mut p = Parser::from_ref(&buf[..]);
             p.advance(*start).unwrap();
             let n = ParsedName::parse(&mut p).unwrap();
-            out.push((format!("ParsedName#{i}"), NRep::P(n)));
+            if *strip == 0 {
+                out.push((format!("ParsedName#{i}"), NRep::P(n)));
+                continue;
+            }
+            // names derived from a longer parsed name
+            let mut a = n;
+            for _ in 0..*strip {
+                a.split_first().unwrap();
+            }
+            out.push((format!("ParsedName#{i}.split_first x{strip}"), NRep::P(a)));
+            let mut b = n;
+            for _ in 0..*strip {
+                assert!(b.parent());
+            }
+            out.push((format!("ParsedName#{i}.parent x{strip}"), NRep::P(b)));
+            if with_suffix_iter {
+                // the iterator borrows the name it came from
+                let keep: &'a ParsedName<&'a [u8]> = Box::leak(Box::new(n));
+                let c = keep.iter_suffixes().nth(*strip).unwrap();
+                out.push((format!("ParsedName#{i}.iter_suffixes[{strip}]"), NRep::P(c)));
+            }
         }
         let offs = label_offsets(w);
         for k in [0, offs.len() / 2, offs.len() - 1] {
@@ -815,7 +1056,7 @@ pub mod order {
         for (ma, mb) in [(0usize, 0usize), (1, 2), (3, 1), (2, 3)] {
             let (wa, wb) = (recase(a, ma), recase(b, mb));
             let (ba, bb) = (name_buffers(&wa), name_buffers(&wb));
-            let (ra, rb) = (name_reps(&wa, &ba), name_reps(&wb, &bb));
+            let (ra, rb) = (name_reps(&wa, &ba, ma + mb == 0), name_reps(&wb, &bb, ma + mb == 0));
             for (i, (na, x)) in ra.iter().enumerate() {
                 for (j, (nb, y)) in rb.iter().enumerate() {
                     if ma + mb > 0 && (i + 2 * j + ma) % 5 != 0 {
